@@ -55,6 +55,8 @@ structure Impl where
   predCtor  : List String
   toTypeCbs : List String
   unmatched : List String
+  jsonAlias : List (String × String × String)  -- alias variable, first URI looked up, fallback URI
+  ifaces    : List (String × String × String)  -- Go interface name, vocabulary URI, type name
   deriving Repr, Inhabited
 
 structure OType where
